@@ -267,7 +267,7 @@ pub fn run(cx: &Ctx) {
                     EdgeList { imp: imp.clone(), len, list }
                 })
             };
-            cx.run_pt(&FromRanges, cx.by(1500, 15000), w, strat, "valid prefix + one injected fault (NaN / descent / truncation / NaN+truncation) or none, extra trailing values");
+            cx.run_pt(&FromRanges, cx.by(1500, 150000), w, strat, "valid prefix + one injected fault (NaN / descent / truncation / NaN+truncation) or none, extra trailing values");
         }
     }
     cx.label("generated");
@@ -288,7 +288,7 @@ pub fn run(cx: &Ctx) {
                     CW { imp: imp.clone(), len, s, e }
                 })
             };
-            cx.run_pt(&ConstWidth, cx.by(1500, 15000), w, strat, "finite start < end over 30 decades; four placements incl. width 1e-12 of the magnitude");
+            cx.run_pt(&ConstWidth, cx.by(1500, 300000), w, strat, "finite start < end over 30 decades; four placements incl. width 1e-12 of the magnitude");
         }
     }
 }
